@@ -789,6 +789,20 @@ impl ElementRaw {
         let src_path_prefix = move_element.0.read().path_unchecked()?;
         let dest_path_prefix = self.path_unchecked()?;
 
+        // the moved elements may only be restricted to files which also contain their new parent:
+        // find the elements whose restriction must be dropped before anything is modified
+        let dest_files = self.effective_file_membership()?;
+        let reset_file_membership: Vec<Element> = move_element
+            .elements_dfs()
+            .filter_map(|(_, elem)| {
+                let elem_locked = elem.0.read();
+                let reset =
+                    !elem_locked.file_membership.is_empty() && !elem_locked.file_membership.is_subset(&dest_files);
+                drop(elem_locked);
+                reset.then_some(elem)
+            })
+            .collect();
+
         // limit the lifetime of the lock on src_parent
         {
             // lock the source parent element and remove the move_element from its content list
@@ -821,14 +835,9 @@ impl ElementRaw {
         };
         drop(move_element_locked);
 
-        // the moved elements may only be restricted to files which also contain their new parent
-        let dest_files = self.effective_file_membership();
-        for (_, elem) in move_element.elements_dfs() {
-            let mut elem_locked = elem.0.write();
-            if !elem_locked.file_membership.is_empty() && !elem_locked.file_membership.is_subset(&dest_files) {
-                // inherit the file membership of the new parent instead
-                elem_locked.file_membership.clear();
-            }
+        // these elements inherit the file membership of the new parent instead
+        for elem in reset_file_membership {
+            elem.0.write().file_membership.clear();
         }
 
         // fix the identifiables cache
@@ -954,7 +963,14 @@ impl ElementRaw {
         drop(move_element_locked);
 
         // the moved elements can't be restricted to files of the source model any more; they inherit from their new parent
-        for (_, elem) in move_element.elements_dfs() {
+        let restricted_elements: Vec<Element> = move_element
+            .elements_dfs()
+            .filter_map(|(_, elem)| {
+                let restricted = !elem.0.read().file_membership.is_empty();
+                restricted.then_some(elem)
+            })
+            .collect();
+        for elem in restricted_elements {
             elem.0.write().file_membership.clear();
         }
 
@@ -987,19 +1003,26 @@ impl ElementRaw {
     }
 
     /// get the set of files that contain this element, either directly or inherited from a parent element
-    fn effective_file_membership(&self) -> HashSet<crate::WeakArxmlFile> {
+    ///
+    /// parent elements are only locked briefly; if one of them is locked elsewhere, then `ParentElementLocked` is returned
+    fn effective_file_membership(&self) -> Result<HashSet<crate::WeakArxmlFile>, AutosarDataError> {
         if !self.file_membership.is_empty() {
-            return self.file_membership.clone();
+            return Ok(self.file_membership.clone());
         }
-        let mut cur_elem_opt = self.parent().ok().flatten();
+        let mut cur_elem_opt = self.parent()?;
         while let Some(cur_elem) = cur_elem_opt {
-            let files = cur_elem.file_membership_local();
-            if !files.is_empty() {
-                return files;
+            let cur_elem_locked = cur_elem
+                .0
+                .try_read_for(Duration::from_millis(10))
+                .ok_or(AutosarDataError::ParentElementLocked)?;
+            if !cur_elem_locked.file_membership.is_empty() {
+                return Ok(cur_elem_locked.file_membership.clone());
             }
-            cur_elem_opt = cur_elem.parent().ok().flatten();
+            let next = cur_elem_locked.parent()?;
+            drop(cur_elem_locked);
+            cur_elem_opt = next;
         }
-        HashSet::new()
+        Ok(HashSet::new())
     }
 
     /// find the upper and lower bound on the insert position for a new sub element
